@@ -65,6 +65,11 @@ TokAccepts(s) == StartTag(s, TokG) \/ EndTag(s, TokG)
 FnAccepts(s)  == StartTag(s, FnG) \/ EndTag(s, FnG)
 TokenConsistent(s) == TokAccepts(s) => FnAccepts(s)
 
+\* Demo (spec/Demo_Parser_taglaw.cfg): the law against a tokenizer whose unquoted value may contain "="
+\* while tag_fn's may not - TLC finds the candidate <span span==>
+TokGWideUnquoted == [TokG EXCEPT !.uqx = UnquotedX \ {"="}]
+TokenConsistentFor(s, GT) == (StartTag(s, GT) \/ EndTag(s, GT)) => FnAccepts(s)
+
 RECURSIVE JoinS(_)
 JoinS(seq) == IF seq = <<>> THEN "" ELSE (IF seq[1] = "NL" THEN "\n" ELSE seq[1]) \o JoinS(Tail(seq))
 \* what becomes of a candidate "<...>" (no "<" or ">" inside): the tokenizer decides whether it is a token,
